@@ -11,7 +11,7 @@ def run(res, ctx):
     if "bound" in ctx["opts"]:
         args = ["--bound", ctx["opts"]["bound"]]
     if tier == "quick":
-        runner.run_harness(res, SRC, "asan", tier, args=args, deadline=200, timeout=600, shards=16)
+        runner.run_harness(res, SRC, "asan", tier, args=args, deadline=480, timeout=1200, shards=16)
     else:
         runner.run_harness(res, SRC, "asan", tier, args=args, deadline=1500, timeout=2400, shards=16)
 
